@@ -178,12 +178,18 @@ theorem printTruncate_is_layout (lib : Lib) (rm : Bool) (win : Win) (row : Int) 
   simp only [printTruncateOps, show ¬ row ≥ win.height by omega, if_false]
   exact truncGo_layout lib rm win.width row (flatten segs) 0
 
-/-- Full statement for `Wrap` (not yet proved; validated by the correspondence run and the oracle):
-its calls are the word-wrapping layout of its line segments, minus calls at rows ≥ height. -/
-def wrap_is_layout_full : Prop :=
-  ∀ (lib : Lib) (rm : Bool) (win : Win) (segs : List (Nat × List (List Raw))),
+/-- **print_order (Wrap).** The `SetCell` calls `Wrap` makes are the word-wrapping reading-order
+layout of its line segments (a segment that fits a row but not the rest of the current row starts a
+new row; clusters advance by their measured width; a cluster with a trailing line break or a full
+row starts a new row), except that processing stops once the pen is at `row ≥ height` — rows that
+are outside the window anyway.  Uses that Wrap stores the width it measured (`facts_wrap`; false of
+the code before the F34 fix). -/
+theorem wrap_is_layout (lib : Lib) (rm : Bool) (win : Win) (segs : List (Nat × List (List Raw))) :
     ∃ dropped, (layoutWrap win.width (wrapAllItems lib rm segs) 0 0).1 =
-        (wrapOps lib rm win segs).1 ++ dropped ∧ ∀ o ∈ dropped, win.height ≤ o.row
+        (wrapOps lib rm win segs).1 ++ dropped ∧ ∀ o ∈ dropped, win.height ≤ o.row := by
+  have hstored : wrapRemeasured = true := by decide
+  simp only [wrapOps, hstored]
+  exact wrapGo_layout lib rm win.width win.height segs 0 0
 
 /-- Single-line layouts write left to right on one row, advancing by the widths. -/
 theorem layoutLine_order (cols row : Int) (l : List Item) (col : Int) (hw : ∀ it ∈ l, 0 < it.w) :
